@@ -265,10 +265,11 @@ def validate(events, workdir, max_shards):
     if not events:
         return [], 0, 0
     # cost-balanced shards (cost ~ serialized size)
-    n_shards = max(1, min(max_shards, len(events) // 200 + 1))
+    lines = [json.dumps(e, separators=(",", ":")) for e in events]
+    total = sum(len(x) for x in lines)
+    n_shards = max(1, min(max_shards, len(events), max(len(events) // 200 + 1, total // 1_000_000 + 1)))
     shards = [[] for _ in range(n_shards)]
     loads = [0] * n_shards
-    lines = [json.dumps(e, separators=(",", ":")) for e in events]
     order = sorted(range(len(events)), key=lambda i: -len(lines[i]))
     for i in order:
         j = loads.index(min(loads))
